@@ -68,7 +68,7 @@ type Pool struct {
 const maxPooled = 128
 
 var (
-	poolBuf  [64]*Pool
+	poolBuf  [8192]*Pool
 	pools    []*Pool
 	pcfg     PoolConfig
 	pstats   PoolStats
@@ -110,10 +110,11 @@ func Pooled() int {
 func (p *Pool) register() {
 	if !p.registered {
 		p.registered = true
-		if len(pools) < len(poolBuf) {
-			poolBuf[len(pools)] = p
-			pools = poolBuf[:len(pools)+1]
+		if len(pools) >= len(poolBuf) {
+			panic("simsync: more pools than the registry holds; an unregistered pool would keep items across runs")
 		}
+		poolBuf[len(pools)] = p
+		pools = poolBuf[:len(pools)+1]
 	}
 }
 
